@@ -88,8 +88,8 @@ namespace detail
 		template<typename genType>
 		GLM_FUNC_QUALIFIER static genType call(genType Source, genType Multiple)
 		{
-			genType Tmp = Source - genType(1);
-			return Tmp + (Multiple - (Tmp % Multiple));
+			genType const Remainder = Source % Multiple;
+			return Remainder ? Source + (Multiple - Remainder) : Source;
 		}
 	};
 
@@ -106,7 +106,7 @@ namespace detail
 				return Tmp + (Multiple - (Tmp % Multiple));
 			}
 			else
-				return Source + (-Source % Multiple);
+				return Source - (Source % Multiple);
 		}
 	};
 
